@@ -1,6 +1,9 @@
 #!/bin/sh
-# Refreshes lean/GenBaseline from the Gen files regenerated against the unchanged /repo (run every check that owns one first).
+# Refreshes lean/GenBaseline: runs each check that owns a generated file against the unchanged /repo and copies that file only.
 cd "$(dirname "$0")/.." || exit 1
-for c in C19 C20 C18 C12 C11 C16; do ./check $c quick >/dev/null 2>&1; done
-for f in lean/RulioModel/Gen/*.lean; do cp "$f" lean/GenBaseline/$(basename "$f").txt; done
+for pair in C19:Loc C20:C20 C18:C18 C12:C12 C11:C11 C16:C16 C13:C13; do
+  c=${pair%%:*}; f=${pair##*:}
+  ./check $c quick >/dev/null 2>&1
+  cp lean/RulioModel/Gen/$f.lean lean/GenBaseline/$f.lean.txt
+done
 echo baseline refreshed
